@@ -9,7 +9,8 @@ EXPLANATION = (
     "Decides the rendezvous structure: detach_state is moved only by compare-exchange from a named state after creation "
     "(transition table: completed NONE->WFJ; join NONE->WTJ, WFJ->WTJ; tryjoin WFJ->WTJ; detach NONE->DET, WFJ->DET); for every "
     "sequence of states its accesses can observe (other parties moving the state in between), each of fiber_mark_completed / "
-    "fiber_join / fiber_tryjoin / fiber_detach makes only a legal transition and takes exactly the specified action (first party parks through the deferred set_and_wait on the fiber's join_info; second party takes the "
+    "fiber_join / fiber_tryjoin / fiber_detach (each path interpreted concretely, the compare-exchange updating its expected local) "
+    "makes only a legal transition and takes exactly the specified action (first party parks through the deferred set_and_wait on the fiber's join_info; second party takes the "
     "sleeper with clear_or_wait, marks it READY and schedules it, in that order; every other value is an error return "
     "without blocking); the finished fiber's result is stored before its state exchange and copied into a waiting joiner "
     "before that joiner is scheduled; join/tryjoin read the result only after having observed WAIT_FOR_JOINER and before "
